@@ -32,11 +32,20 @@ struct Obj {
 /// Feature symbols of the free-world visual runs: three families of look-alike appearances.  Euclidean: points whose
 /// pairwise distances stay clear of the threshold 2.8; cosine: unit vectors whose similarities stay clear of 0.85.
 pub fn vis_symbols(cosine: bool) -> Vec<Vec<f32>> {
-    if cosine {
-        [0.0f32, 10.0, 20.0, 90.0, 100.0, 115.0, 45.0].iter().map(|d| vec![d.to_radians().cos(), d.to_radians().sin()]).collect()
+    let pts: Vec<(f32, f32)> = if cosine {
+        [0.0f32, 10.0, 20.0, 90.0, 100.0, 115.0, 45.0].iter().map(|d| (d.to_radians().cos(), d.to_radians().sin())).collect()
     } else {
-        vec![vec![0.0, 0.0], vec![1.0, 0.0], vec![0.0, 2.0], vec![10.0, 10.0], vec![11.0, 10.0], vec![10.0, 12.5], vec![2.5, 0.0]]
-    }
+        vec![(0.0, 0.0), (1.0, 0.0), (0.0, 2.0), (10.0, 10.0), (11.0, 10.0), (10.0, 12.5), (2.5, 0.0)]
+    };
+    // ten components: the two coordinates sit in different 8-lane blocks of the packed feature
+    pts.iter()
+        .map(|(x, y)| {
+            let mut v = vec![0.0f32; 10];
+            v[0] = *x;
+            v[9] = *y;
+            v
+        })
+        .collect()
 }
 /// symbols (1-based) of a family: 1 = {1,2,3}, 2 = {4,5,6}, 3 = {7} (close to some of family 1, far from others)
 fn family_symbols(fam: usize) -> &'static [usize] {
@@ -236,7 +245,11 @@ pub struct Recorder {
 fn symbol_of(table: &[Vec<f32>], f: &Option<Vec<f32>>) -> i64 {
     match f {
         None => 0,
-        Some(v) => table.iter().position(|s| v.len() >= 2 && s[0] == v[0] && s[1] == v[1] && v[2..].iter().all(|x| *x == 0.0)).map(|p| p as i64 + 1).unwrap_or(99),
+        Some(v) => table
+            .iter()
+            .position(|s| v.len() >= s.len() && s.iter().zip(v.iter()).all(|(a, b)| a == b) && v[s.len()..].iter().all(|x| *x == 0.0))
+            .map(|p| p as i64 + 1)
+            .unwrap_or(99),
     }
 }
 fn qmilli(q: f32) -> i64 {
@@ -268,15 +281,14 @@ impl Recorder {
 
     /// switches the logging of appearance features on (VisualSort kinds): the configuration line gets the record "v"
     pub fn with_features(mut self) -> Recorder {
-        use similari::distance::{cosine, euclidean};
-        use similari::track::utils::FromVec;
-        use similari::track::Feature;
         let cos = matches!(self.cfg.vis_metric, VisualSortMetricType::Cosine(_));
         let table = vis_symbols(cos);
-        let feats: Vec<Feature> = table.iter().map(|v| Feature::from_vec(v.clone())).collect();
-        let dist: Vec<Vec<i64>> = feats
+        // the textbook formulas on the symbol vectors (what Feature.tla states about the library's functions: C16)
+        let eu = |a: &Vec<f32>, b: &Vec<f32>| a.iter().zip(b.iter()).map(|(x, y)| (*x as f64 - *y as f64).powi(2)).sum::<f64>().sqrt();
+        let dot = |a: &Vec<f32>, b: &Vec<f32>| a.iter().zip(b.iter()).map(|(x, y)| *x as f64 * *y as f64).sum::<f64>();
+        let dist: Vec<Vec<i64>> = table
             .iter()
-            .map(|a| feats.iter().map(|b| ((if cos { cosine(a, b) } else { euclidean(a, b) }) as f64 * 1000.0).round() as i64).collect())
+            .map(|a| table.iter().map(|b| ((if cos { dot(a, b) / (dot(a, a) * dot(b, b)).sqrt() } else { eu(a, b) }) * 1000.0).round() as i64).collect())
             .collect();
         let c = &self.cfg;
         self.lines[0]["vis"] = json!(1);
